@@ -602,12 +602,15 @@ func c13RenderInput(inp input.Input, p sweep.Params, life int) c13InputRec {
 		excl = fmt.Sprint(*p.ExclusiveGroup)
 	}
 	sd := c13RenderSDBlob(inp.SignDesc(), inp.ResolutionBlob())
+	// The height hint is not part of the equality: it is a lower bound
+	// for the sweeper's rescan, and with the real nursery (own goroutines)
+	// the height at which an output is handed over can differ by a block
+	// between two process lives. Differences are counted separately.
 	core := fmt.Sprintf("wt=%v op=%v csv=%d lock=%d/%v reqout=%s "+
-		"hint=%d params(budget=%d deadline=%v excl=%s imm=%v) sd=[%s]",
+		"params(budget=%d deadline=%v excl=%s imm=%v) sd=[%s]",
 		inp.WitnessType(), inp.OutPoint(), inp.BlocksToMaturity(), lock,
 		hasLock, c13RenderTxOut(inp.RequiredTxOut()),
-		inp.HeightHint(), p.Budget, p.DeadlineHeight, excl, p.Immediate,
-		sd)
+		p.Budget, p.DeadlineHeight, excl, p.Immediate, sd)
 
 	return c13InputRec{
 		op: inp.OutPoint(), wt: fmt.Sprint(inp.WitnessType()), core: core,
